@@ -83,12 +83,13 @@ def coq_facts(ctx):
         "Eval vm_compute in (unhandled_kinds tbl).",
         "Eval vm_compute in (reach_list tbl).",
         "Eval vm_compute in (check_scopes tbl, check_kinds tbl).",
+        "Eval vm_compute in (unaccounted ltbl).",
     ])
     out = ctx.coq_eval("facts", body)
     vals = vlib.parse_coq_values(out)
     verdicts = {k: (r, h) for k, (r, h) in vals[0]}
     return {"verdicts": verdicts, "unaccounted": [list(x) for x in vals[1]], "unhandled": list(vals[2]),
-            "reach": list(vals[3]), "checks": list(vals[4])}
+            "reach": list(vals[3]), "checks": list(vals[4]), "lowering_unaccounted": [list(x) for x in vals[5]]}
 
 
 def py_facts(rep, allow):
@@ -161,6 +162,8 @@ def run(ctx):
         if key in seen:
             continue
         seen.add(key)
+        if len(seen) > 12 and ctx.is_known(key) is None:
+            continue  # the first dozen distinct pairs are reported; the total is in the evidence
         ctx.report(key, "counterexample", "effect test: two programs that differ in one field are both accepted with identical HUGR", {
             "field_that_differs": d["field"], "change": d["change"], "context": d["context"], "experimental_features": d["exp"],
             "program_a": d["program_a"], "program_b": d["program_b"], "observed": "both accepted, identical compiled HUGR " + str(d["hugr_fingerprint"]),
@@ -176,7 +179,9 @@ def run(ctx):
     except Exception as e:  # GenTable.vo / ModelDrop.vo did not build
         notes.append(f"model evaluation failed: {str(e)[-300:]}")
     allow = set()
-    for m in __import__("re").finditer(r'\("(\w+)", "(\w+)", "', (vlib.COQ / "C32" / "ModelDrop.v").read_text()):
+    model_text = (vlib.COQ / "C32" / "ModelDrop.v").read_text()
+    front_part = model_text.split("Definition lowering_allowlist")[0]
+    for m in __import__("re").finditer(r'\("(\w+)", "(\w+)", "', front_part):
         allow.add((m.group(1), m.group(2)))
     if facts is not None:
         # (a) the Coq text says what the translator's data says
@@ -225,7 +230,7 @@ def run(ctx):
     # ---------------------------------------------------------------- proof status
     if not info["ok"]:
         excerpt = vlib.CoqResult(False, info["log"]).error_excerpt()
-        un = facts["unaccounted"] if facts else None
+        un = (facts["unaccounted"] + [["lowering"] + x for x in facts["lowering_unaccounted"]]) if facts else None
         unh = facts["unhandled"] if facts else None
         if drops:
             pass  # the concrete failing inputs were reported above
@@ -261,13 +266,16 @@ def run(ctx):
          "a field that is read but then ignored is invisible to the table and is caught only by the program matrix",
          "the allowlist of 14 (kind, field) pairs in coq/C32/ModelDrop.v, each with its reason",
          "tools/repo_shim.py; HUGR fingerprint = node list + op reprs + links with DefId counters normalised (props/C32/impl_drop.py)",
-         "modelled: which front-end code looks at which grammar field and the generic-visit fallbacks; not modelled: what is done with the field"],
+         "modelled: which front-end code looks at which grammar field and the generic-visit fallbacks; not modelled: what is done with the field",
+         "lowering (compiler/expr_compiler.py, stmt_compiler.py): only the per-scope statement lowering_scopes_account (each visit_* of ExprCompiler/StmtCompiler "
+         "touches every field of its checked node kind, 5-entry lowering allowlist); a lowering bug that reads a field but compiles the wrong part of it "
+         "(e.g. guards of the last generator only) is caught by the positional program matrix only"],
         evaluations=len(payload) + len(cpayload), distinct_nontrivial=accepted_pairs,
         rule="evaluation = one program through check() (+ compile() when accepted); non-trivial = a pair in which both programs are accepted, "
              "so the HUGR comparison decides",
         traces_validated_against_impl=tv_checked, translator_disagreements=len(tv_disagree),
         grammar_kinds=len(rep["kinds"]), grammar_fields=sum(len(v["fields"]) for v in rep["kinds"].values()),
-        scopes=len(rep["scopes"]), reachable_kinds=len(facts["reach"]) if facts else None,
+        scopes=len(rep["scopes"]), lowering_scopes=len(rep["lowering_scopes"]), reachable_kinds=len(facts["reach"]) if facts else None,
         pair_verdicts=verdict_hist, contexts=contexts, cases=len(plain), pairs_run=len(book), corpus_pairs=len(corpus),
         entries_with_python_syntax_error=skipped_syntax_entries,
         differing_field_histogram=dict(sorted(diffs.items())), grammar_kinds_not_in_matrix=missing_kinds,
